@@ -60,10 +60,13 @@ structure Fixes where
   /-- the reverse-video erase loop counts down a copy, so `move_rel` gets the full `count`
       (`fixes/C09_rv_erase_over_64.patch`). -/
   eraseKeepsCount : Bool
+  /-- `tickit_term_printn` returns at once for `len == 0` instead of letting `write_str` take it for "use
+      `strlen`" (`fixes/C09_printn_zero_len.patch`). -/
+  printnGuard : Bool
 deriving DecidableEq, Repr, Inhabited
 
 /-- The code as found in the unchanged tree. -/
-def Fixes.none : Fixes := ⟨false, false⟩
+def Fixes.none : Fixes := ⟨false, false, false⟩
 
 /-- `printf` restricted to `%d`: the format strings of the source, instantiated. -/
 def fmt : List UInt8 → List Int → List UInt8
@@ -84,8 +87,8 @@ def MoveEnd.ofInt (i : Int) : MoveEnd := if i = 0 then .no else if i = 1 then .y
 
 /-! ### `print` (through `write_str`, whose `len == 0` means `strlen`) -/
 
-def print (str : List UInt8) (len : Nat) : List UInt8 :=
-  if len = 0 then str.takeWhile (· ≠ 0) else str.take len
+def print (fx : Fixes) (str : List UInt8) (len : Nat) : List UInt8 :=
+  if len = 0 then (if fx.printnGuard then [] else str.takeWhile (· ≠ 0)) else str.take len
 
 /-! ### `goto_abs` -/
 
@@ -268,7 +271,7 @@ deriving Repr, Inhabited
 def request (fx : Fixes) (d : Drv) : Request → Bool × List UInt8
   | .goto l c => (true, gotoAbs l c)
   | .move dn rt => (true, moveRel dn rt)
-  | .print s n => (true, print s n)
+  | .print s n => (true, print fx s n)
   | .erasech n me => (true, erasech fx d.pen.reverse n me)
   | .clear => (true, clear)
   | .scroll r dn rt => scrollrect fx d.caps d.cols r dn rt
@@ -375,5 +378,48 @@ def OneColumnTrigger (caps : Caps) (termCols : Int) (rect : Rect) (downward : In
 instance (caps : Caps) (termCols : Int) (rect : Rect) (downward : Int) :
     Decidable (OneColumnTrigger caps termCols rect downward) := by unfold OneColumnTrigger; exact inferInstance
 
+
+/-! ### Sequences of requests -/
+
+/-- The in-range contract of one request on screen `vt` (DESIGN.md Appendix C), together with the side conditions
+    that exclude the defects of the unchanged tree (each proved necessary by a counterexample theorem in
+    Props/C09.lean).  `d` is the driver-side state: probed capabilities, terminal size, cached pen. -/
+def InContract (fx : Fixes) (d : Drv) (vt : VT.VTState) : Request → Prop
+  | .goto line col => (line = -1 ∨ (0 ≤ line ∧ line < vt.lines)) ∧ (col = -1 ∨ (0 ≤ col ∧ col < vt.cols))
+  | .move dn rt => (0 ≤ vt.row + dn ∧ vt.row + dn < vt.lines) ∧ (0 ≤ vt.col + rt ∧ vt.col + rt < vt.cols)
+  | .print s n => vt.pendingWrap = false ∧ n = s.length ∧ s ≠ [] ∧ (∀ b ∈ s, 0x20 ≤ b ∧ b < 0x7f) ∧
+      vt.col + s.length ≤ vt.cols
+  | .erasech n me => vt.pendingWrap = false ∧ 1 ≤ n ∧ vt.col + n ≤ vt.cols ∧
+      (fx.eraseKeepsCount = false → d.pen.reverse = true → me = .no → n ≤ 64) ∧
+      (d.pen.reverse = true → me = .no → vt.col + n = vt.cols → vt.col = 0)
+  | .clear => True
+  | .scroll r dn rt => ScrollInRange vt r dn rt ∧ (fx.scrollGuard = false → ¬ OneColumnTrigger d.caps vt.cols r dn)
+
+/-- What one request must have done to the screen. -/
+def StepOK (fx : Fixes) (d : Drv) (vt vt' : VT.VTState) : Request → Prop
+  | .goto line col => vt' = Spec.goto line col vt
+  | .move dn rt => vt' = Spec.move dn rt vt
+  | .print s _ => vt' = { vt with grid := Spec.printGrid (s.map UInt8.toNat) vt,
+                                   col := if vt.col + s.length < vt.cols then vt.col + s.length else vt.cols - 1,
+                                   pendingWrap := decide (vt.col + s.length = vt.cols) }
+  | .erasech n me => Spec.EraseOK n me vt vt'
+  | .clear => vt' = { vt with grid := Spec.clearGrid vt }
+  | .scroll r dn rt =>
+    if (scrollrect fx d.caps d.cols r dn rt).1 = true then Spec.ScrollOK r dn rt vt vt' else vt' = vt
+
+/-- Every request of the sequence is in range on the screen it meets. -/
+def AllInContract (fx : Fixes) (d : Drv) : VT.VTState → List Request → Prop
+  | _, [] => True
+  | vt, q :: qs => InContract fx d vt q ∧ AllInContract fx d (VT.run (request fx d q).2 vt) qs
+
+/-- Every request of the sequence had exactly its effect. -/
+def AllStepsOK (fx : Fixes) (d : Drv) : VT.VTState → List Request → Prop
+  | _, [] => True
+  | vt, q :: qs => StepOK fx d vt (VT.run (request fx d q).2 vt) q ∧ AllStepsOK fx d (VT.run (request fx d q).2 vt) qs
+
+/-- Screen after a sequence of requests. -/
+def runRequests (fx : Fixes) (d : Drv) : VT.VTState → List Request → VT.VTState
+  | vt, [] => vt
+  | vt, q :: qs => runRequests fx d (VT.run (request fx d q).2 vt) qs
 
 end Tickit.XTermDrv
